@@ -58,7 +58,7 @@ def check_limit(ctx, ra, rb, f, amount):
         raise AnalysisBroken('%s: no path' % f.name)
 
 
-def run(ctx):
+def _run(ctx):
     ctx.explanation = ('Static clauses on arena.c / mempool: (a) every failing path of parsec_arena_get_chunk and parsec_arena_allocate_device_private leaves arena->used unchanged (increment rolled back exactly once); '
                        '(b) the refusal compares the post-value of the increment with max_used and an over-limit path always fails; (c) released is decremented exactly on a successful cache pop and incremented '
                        'exactly before a cache push, the push is guarded by released < max_released and count == 1, the non-cached release subtracts chunk->count from used and frees; (d) the data pointer is the '
@@ -174,3 +174,10 @@ def run(ctx):
     pops = fal.calls('parsec_lifo_pop'); grow = fal.calls('parsec_thread_mempool_allocate_when_empty')
     re_.expect(len(pops) == 1 and len(grow) == 1 and fal.guarded_by(grow[0].point, lambda a, t: (not t) and a.k == 'ref') and pops[0].args[0].s == '&%s->mempool' % fal.params[0]['n'], 'mempool:alloc',
                pops[0].loc if pops else fal.where(), 'allocation must pop from the thread pool and only allocate fresh memory when the pop yields NULL', note='allocate: pop, else allocate_when_empty')
+
+
+
+def run(ctx):
+    _run(ctx)
+    from rules import whowrites
+    whowrites.thorough(ctx, 'C27')
